@@ -75,7 +75,7 @@ def _callers_of(fn_name, files=None):
     return res
 
 
-def only_in(name, pattern, allowed, files=None, min_hits=1, strict=False):
+def only_in(name, pattern, allowed, files=None, min_hits=1, strict=True):
     """Obligation: every occurrence of `pattern` lies in one of the functions `allowed`, or in a helper function
     whose every (textual) call site lies in an allowed function (one level of extraction is tolerated, so that
     moving the statement into a helper called from the same place is not an alarm; a function that is never
@@ -103,7 +103,7 @@ def absent(name, pattern, files=None):
                 detail=['%s:%d in fn %s: %s' % o for o in occ], sample=[])
 
 
-def in_order(name, file, fn, patterns, impl=None, strict=False):
+def in_order(name, file, fn, patterns, impl=None, strict=True):
     """Obligation: inside fn, the patterns occur, each first occurrence after the previous one's."""
     text = read_repo(file)
     try:
